@@ -218,7 +218,7 @@ func parserChain(p *core.Program) ([]classifyBranch, string) {
 
 func runC12(p *core.Program, r *core.Report) {
 	r.Explanation = "Decides ONE necessary condition of the property, the routing of number spellings: from the scanner's digit alphabets (the default one and the one installed after each accepted radix prefix) and the parser's ordered classification predicates, every spelling class named by the property — decimal integers, and hexadecimal integers for every prefix letter the scanner accepts — is routed, uniformly for all its members, to an integer parse whose base fits the class: a predicate whose character set meets the class's alphabet may be reached only if an earlier predicate already matches every member of the class. A spelling routed to the float parse or to the wrong base is rejected or mis-valued, whatever strconv does."
-	r.NotDecided = []string{"that strconv returns exactly the written number; UTF-8 decoding and the byte-level assembly of the unescaped string", "octal and binary prefixes (the scanner accepts them, the property does not speak of them)"}
+	r.NotDecided = []string{"that strconv returns exactly the written number; UTF-8 decoding and the byte-level assembly of the unescaped string", "octal and binary prefixes (the scanner accepts them, the property does not speak of them)", "the float grammar the number scanner accepts (empty fraction `2.`, exponent forms, the look-ahead that separates `1..2` from `1.5`): seeded change C12-f is not reported"}
 	classes, msg := scannerClasses(p)
 	if classes == nil {
 		r.Unk("R12.1", "number scanner", "", msg)
